@@ -9,7 +9,7 @@ import ctypes
 import os
 import struct
 
-HASH, ARRAY, PROG_ARRAY, PERCPU_HASH, PERCPU_ARRAY, LRU_HASH = 1, 2, 3, 5, 6, 9
+HASH, ARRAY, PROG_ARRAY, PERCPU_HASH, PERCPU_ARRAY, LRU_HASH, LRU_PERCPU_HASH = 1, 2, 3, 5, 6, 9, 10      # the kernel's numbering (uapi/linux/bpf.h)
 
 
 def possible_cpus():
@@ -49,7 +49,7 @@ class BpfSim:
         return have
 
     def value_size(self, m):
-        if m["type"] in (PERCPU_ARRAY, PERCPU_HASH):
+        if m["type"] in (PERCPU_ARRAY, PERCPU_HASH, LRU_PERCPU_HASH):
             return (m["value"] + 7) // 8 * 8 * self.ncpu
         return m["value"]
 
@@ -115,7 +115,10 @@ class BpfSim:
                 if flags == 2 and key not in m["data"]:
                     raise OSError(2, "No such file or directory")
                 if key not in m["data"] and len(m["data"]) >= m["max"]:
-                    raise OSError(7, "Argument list too long")
+                    if m["type"] in (LRU_HASH, LRU_PERCPU_HASH):
+                        del m["data"][next(iter(m["data"]))]          # an LRU map makes room by evicting an old element
+                    else:
+                        raise OSError(7, "Argument list too long")
                 m["data"][key] = ctypes.string_at(vptr, vs)
                 return 0, args
             if key not in m["data"]:
